@@ -217,7 +217,29 @@ fn prim_calls(d: &Value, out: &mut Vec<Value>) {
 fn text_calls(d: &Value, out: &mut Vec<Value>) {
     let s = string_of(&d["s"]);
     let ts = text_style(d);
-    let cs = if d["font"] == "null" {
+    // custom font with non-zero character spacing: "spaced:<built-in font>:<spacing>"
+    let fname = d["font"].as_str().unwrap().to_string();
+    let spaced_font;
+    let cs = if let Some(rest) = fname.strip_prefix("spaced:") {
+        let mut it = rest.rsplitn(2, ':');
+        let sp: u32 = it.next().unwrap().parse().unwrap();
+        let base = egv::drawables::font_by_name(it.next().unwrap());
+        spaced_font = embedded_graphics::mono_font::MonoFont { character_spacing: sp, ..*base };
+        let mut b = MonoTextStyleBuilder::<C>::new().font(&spaced_font);
+        if i(&d["tc"]) >= 0 {
+            b = b.text_color(C::from_u32(i(&d["tc"]) as u32));
+        }
+        if i(&d["bc"]) >= 0 {
+            b = b.background_color(C::from_u32(i(&d["bc"]) as u32));
+        }
+        if i(&d["ul"]) != -1 {
+            b = b.underline();
+        }
+        if i(&d["st"]) != -1 {
+            b = b.strikethrough();
+        }
+        b.build()
+    } else if d["font"] == "null" {
         // the null font of a builder without a font
         let mut b = MonoTextStyleBuilder::<C>::new();
         if i(&d["tc"]) >= 0 {
@@ -322,10 +344,23 @@ fn reject_calls(d: &Value, out: &mut Vec<Value>) {
     fb!("framebuffer_8bpp_9x2", Gray8, LittleEndianMsb0, 9, 2, Gray8::new(200));
     fb!("framebuffer_16bpp_3x3", Rgb565, BigEndianLsb0, 3, 3, Rgb565::new(31, 0, 31));
     fb!("framebuffer_24bpp_2x2", Rgb888, LittleEndianMsb0, 2, 2, Rgb888::new(1, 2, 3));
+    // boundary indices: the byte / bit offset computation overflows around usize::MAX / n
     let idx: usize = match i(&d["idx"]) {
         -1 => usize::MAX,
         -2 => usize::MAX / 2 + 7,
         -3 => usize::MAX / 8 + 1,
+        -4 => usize::MAX / 2,
+        -5 => usize::MAX / 3,
+        -6 => usize::MAX / 4,
+        -7 => usize::MAX / 8,
+        -8 => usize::MAX / 2 + 1,
+        -9 => usize::MAX / 3 + 1,
+        -10 => usize::MAX / 4 + 1,
+        -11 => usize::MAX - 1,
+        -12 => usize::MAX / 2 - 1,
+        -13 => usize::MAX / 3 - 1,
+        -14 => usize::MAX / 4 - 1,
+        -15 => usize::MAX / 16,
         v => v as usize,
     };
     let len = i(&d["len"]) as usize;
@@ -498,8 +533,10 @@ fn gen_cases(th: bool, seed: u64) -> Vec<Value> {
     // text: fonts incl. the null font, degenerate strings, line heights up to 1024 px / 400 %
     let strings: Vec<Vec<u32>> = vec![vec![], vec![65], vec![10], vec![13, 10], vec![65, 10, 10, 66], "Hello, World!\n\u{e9}\u{2603}\t".chars().map(|c| c as u32).collect(), vec![0], vec![0x1F600, 0x7f]];
     let nfont = if th { FONTS.len() } else { 40 };
-    for fi in 0..=nfont {
-        let fname = if fi == nfont { "null".to_string() } else { FONTS[(fi * 7) % FONTS.len()].0.to_string() };
+    for fi in 0..=nfont + 6 {
+        let fname = if fi == nfont { "null".to_string() } else if fi > nfont {
+            format!("spaced:{}:{}", FONTS[(fi * 13) % FONTS.len()].0, [1, 2, 3, 7, 16, 64][fi - nfont - 1])
+        } else { FONTS[(fi * 7) % FONTS.len()].0.to_string() };
         for (si, s) in strings.iter().enumerate() {
             for k in 0..(if th { 6 } else { 2 }) {
                 let lh = match (fi + si + k) % 5 { 0 => json!([0, 0]), 1 => json!([0, 1024]), 2 => json!([1, 400]), 3 => json!([1, 0]), _ => json!([1, 100]) };
@@ -526,7 +563,7 @@ fn gen_cases(th: bool, seed: u64) -> Vec<Value> {
     let pts = [(-1, 0), (0, -1), (5, 0), (0, 3), (9, 1), (2, 2), (3, 3), (i32::MIN, 0), (0, i32::MIN), (i32::MAX, i32::MAX), (i32::MAX, 0), (-1024, 1024), (1024, 1024), (0, 0), (1, 1), (4, 2), (8, 1)];
     for (pi, p) in pts.iter().enumerate() {
         for len in [0, 1, 2, 3, 4, 7] {
-            for idx in [0i64, 1, 2, 3, 4, 7, 8, 15, 16, 31, 32, 56, 57, -1, -2, -3] {
+            for idx in [0i64, 1, 2, 3, 4, 7, 8, 15, 16, 31, 32, 56, 57, -1, -2, -3, -4, -5, -6, -7, -8, -9, -10, -11, -12, -13, -14, -15] {
                 if (pi + len as usize + idx.unsigned_abs() as usize) % 3 != 0 && !th { continue; }
                 v.push(json!({"kind":"reject","p":[p.0, p.1],"len":len,"idx":idx}));
             }
